@@ -44,6 +44,30 @@ def _one(xs, what):
     return xs[0]
 
 
+def _iter_rows(f, module):
+    """the rows a `for` loop runs over, when they are written as a literal list of tuples in place or bound to a
+    module-level name (a hoisted table): list of tuples of Python values (types stay types), else None"""
+    it = f.iter
+    if isinstance(it, (ast.List, ast.Tuple)) and it.elts and all(isinstance(e, ast.Tuple) for e in it.elts):
+        rows = []
+        for e in it.elts:
+            row = []
+            for x in e.elts:
+                if isinstance(x, ast.Name) and x.id in ("str", "int", "bool"):
+                    row.append({"str": str, "int": int, "bool": bool}[x.id])
+                elif isinstance(x, ast.Constant):
+                    row.append(x.value)
+                else:
+                    return None
+            rows.append(tuple(row))
+        return rows
+    if isinstance(it, ast.Name) and hasattr(module, it.id):
+        val = getattr(module, it.id)
+        if isinstance(val, (list, tuple)) and val and all(isinstance(r, tuple) for r in val):
+            return [tuple(r) for r in val]
+    return None
+
+
 def gen_edstables():
     from canopen.objectdictionary import eds, datatypes as dt
     import canopen.objectdictionary as odm
@@ -63,16 +87,12 @@ def gen_edstables():
     mults = [n for n in ast.walk(rates) if isinstance(n, ast.BinOp) and isinstance(n.op, ast.Mult)]
     m = _one(mults, "rate multiplier")
     out += f"def BAUD_UNIT : Nat := {lnat(_const(m.right, int))}\n"
-    props = _one([f for f in fors if isinstance(f.iter, ast.List) and f.iter.elts
-                  and all(isinstance(e, ast.Tuple) and len(e.elts) == 3 for e in f.iter.elts)],
-                 "DeviceInfo table of import_eds")
-    kinds = {"str": 0, "int": 1, "bool": 2}
-    rows = []
-    for e in props.iter.elts:
-        k, a, b = e.elts
-        if not (isinstance(k, ast.Name) and k.id in kinds):
-            raise TranslatorError("DeviceInfo table: unknown type column")
-        rows.append(f"  ({kinds[k.id]}, {lcl(_const(a, str))}, {lcl(_const(b, str))})")
+    cands = [r for r in (_iter_rows(f, eds) for f in fors)
+             if r and all(len(x) == 3 and x[0] in (str, int, bool) and isinstance(x[1], str) and isinstance(x[2], str)
+                          for x in r)]
+    imp_rows = _one(cands, "DeviceInfo table of import_eds")
+    kinds = {str: 0, int: 1, bool: 2}
+    rows = [f"  ({kinds[k]}, {lcl(a)}, {lcl(b)})" for k, a, b in imp_rows]
     out += ("\n/-- (kind, EDS key, attribute); kind 0 = str, 1 = int, 2 = bool -/\n"
             "def DEVINFO_IMPORT : List (Nat × List Char × List Char) := [\n" + ",\n".join(rows) + "]\n")
     rng = [n for n in ast.walk(t) if isinstance(n, ast.Call) and isinstance(n.func, ast.Name)
@@ -89,27 +109,19 @@ def gen_edstables():
     c = _one(cmps, "data_type threshold")
     out += f"\ndef CUSTOM_TYPE_ABOVE : Nat := {lnat(_const(c.comparators[0], int))}\n"
 
-    # ---- _calc_bit_length: chain of `data_type == datatypes.X: return N` -----------------------
-    t = _tree(eds._calc_bit_length)
-    fn = t.body[0]
+    # ---- _calc_bit_length: read off by calling it on every data type code (whatever its shape) -----------
     rows = []
-    node = fn.body[0] if fn.body else None
-    if isinstance(node, ast.Return) and isinstance(node.value, ast.Subscript):
-        raise TranslatorError("_calc_bit_length is no longer an if-chain")
-    while isinstance(node, ast.If):
-        test = node.test
-        if not (isinstance(test, ast.Compare) and len(test.ops) == 1 and isinstance(test.ops[0], ast.Eq)
-                and isinstance(test.left, ast.Name) and isinstance(test.comparators[0], ast.Attribute)):
-            raise TranslatorError("_calc_bit_length: unknown test shape")
-        tname = test.comparators[0].attr
-        if not (len(node.body) == 1 and isinstance(node.body[0], ast.Return)):
-            raise TranslatorError("_calc_bit_length: unknown branch shape")
-        rows.append((getattr(dt, tname), _const(node.body[0].value, int)))
-        if len(node.orelse) != 1:
-            raise TranslatorError("_calc_bit_length: unknown else shape")
-        node = node.orelse[0]
-    if not isinstance(node, ast.Raise):
-        raise TranslatorError("_calc_bit_length: chain does not end in raise")
+    for code in range(0, 0x100):
+        try:
+            n = eds._calc_bit_length(code)
+        except ValueError:
+            continue
+        except Exception as e:
+            raise TranslatorError(f"_calc_bit_length({code}) raised {type(e).__name__}")
+        if not isinstance(n, int) or isinstance(n, bool):
+            raise TranslatorError(f"_calc_bit_length({code}) returned {n!r}")
+        rows.append((code, n))
+    rows.sort(key=lambda r: (r[1], r[0]))          # by width: the order of the original chain
     out += ("\n/-- `_calc_bit_length`: (data type, bit length); any other type raises ValueError -/\n"
             "def CALC_BIT_LENGTH : List (Nat × Nat) := "
             + llist([f"({lnat(a)}, {lnat(b)})" for a, b in rows]) + "\n")
@@ -117,10 +129,15 @@ def gen_edstables():
     # ---- export_eds ---------------------------------------------------------------------------------
     t = _tree(eds.export_eds)
     fors = [n for n in ast.walk(t) if isinstance(n, ast.For)]
-    props = _one([f for f in fors if isinstance(f.iter, ast.List) and f.iter.elts
-                  and all(isinstance(e, ast.Tuple) and len(e.elts) == 2 for e in f.iter.elts)],
-                 "DeviceInfo table of export_eds")
-    rows = [f"  ({lcl(_const(e.elts[0], str))}, {lcl(_const(e.elts[1], str))})" for e in props.iter.elts]
+    cands = []
+    for f in fors:
+        r = _iter_rows(f, eds)
+        if r and all(len(x) == 2 and isinstance(x[0], str) and isinstance(x[1], str) for x in r):
+            cands.append(r)
+        elif r and all(len(x) == 3 and x[0] in (str, int, bool) for x in r):
+            cands.append([(x[1], x[2]) for x in r])        # one shared table (type, key, attribute)
+    exp_rows = _one(cands, "DeviceInfo table of export_eds")
+    rows = [f"  ({lcl(a)}, {lcl(b)})" for a, b in exp_rows]
     out += ("\n/-- (EDS key, attribute) -/\ndef DEVINFO_EXPORT : List (List Char × List Char) := [\n"
             + ",\n".join(rows) + "]\n")
     sets = [n for n in ast.walk(t) if isinstance(n, ast.Set)]
